@@ -8,7 +8,7 @@ use serde_json::json;
 
 pub fn lanes() -> Vec<Lane> {
     vec![
-        Lane { name: "histories", count: |c| if c.thorough() { 500_000 } else { 40_000 }, run: hist_lane },
+        Lane { name: "histories", count: |c| if c.thorough() { 1_000_000 } else { 150_000 }, run: hist_lane },
         Lane { name: "catalog", count: |c| (CAT_DOCS.len() as u64 + 1) * if c.thorough() { 18 * 18 * 18 * 18 + 18 * 18 * 18 + 18 * 18 + 18 } else { 18 * 18 * 18 + 18 * 18 + 18 }, run: catalog_lane },
     ]
 }
